@@ -83,6 +83,10 @@ type Exec struct {
 	sched        *scheduler
 	curPos       string
 	hashAx       []*smt.Term
+	hashAxPc     int
+	birth        map[string]int
+	birthSeq     int
+	maxBirthMemo map[int]int
 	lastNow      *smt.Term
 	draws        []*smt.Term
 	blobs        map[*ArrObj]BigVal
@@ -108,7 +112,35 @@ func (ex *Exec) fresh(prefix string) string {
 }
 
 func (ex *Exec) freshInt(prefix string, lo, hi *big.Int) *smt.Term {
-	return smt.Var(ex.fresh(prefix), smt.Int, lo, hi)
+	n := ex.fresh(prefix)
+	ex.noteVar(n)
+	return smt.Var(n, smt.Int, lo, hi)
+}
+
+// noteVar records the creation order of a symbolic variable on this path.
+func (ex *Exec) noteVar(name string) {
+	if _, ok := ex.birth[name]; !ok {
+		ex.birthSeq++
+		ex.birth[name] = ex.birthSeq
+	}
+}
+
+// maxBirth is the creation time of the youngest variable in t (0 if none/unknown).
+func (ex *Exec) maxBirth(t *smt.Term) int {
+	if v, ok := ex.maxBirthMemo[t.ID]; ok {
+		return v
+	}
+	m := 0
+	if t.Op == smt.OVar {
+		m = ex.birth[t.Name]
+	}
+	for _, a := range t.Args {
+		if b := ex.maxBirth(a); b > m {
+			m = b
+		}
+	}
+	ex.maxBirthMemo[t.ID] = m
+	return m
 }
 
 func (ex *Exec) assume(c *smt.Term) {
